@@ -202,6 +202,27 @@ CLAIMED = {
         "kinds; arrays by dtype, shape, bytes). The root group of an .h5 file is listed by name: "
         "the top level is compared in sorted order (Python dict equality ignores order).",
    technique='Lean 4 structural induction over a mutual Tree/Forest model (ordered dictionaries); tree-function and real-file correspondence'),
+ 'C18': dict(
+   text="Proof (Lean 4, core only): model Cli of the configuration parser - per section the "
+        "accepted keys with parser type and destination, the documented option list, the API "
+        "keyword tables, precedence terminal > configuration file > default, file-name completion, "
+        "cache = load & save, receiver_interpolation = linear default for the gradient, noise "
+        "options, rejection of unknown keys and unknown sections. Theorems: every documented "
+        "option is accepted and every accepted option reaches a keyword the API knows (decided "
+        "over the complete tables); for every input an unknown key in any section and any unknown "
+        "section make the parse fail; a command-line file name / --path / -n / -l wins over the "
+        "configuration file, which wins over the default; cache overrules load and save. Tie to "
+        "code: the option list is re-extracted from docs/manual/cli.rst and the API keywords with "
+        "inspect / behavioural probes on every run; main(args) with argparse + parse_config_file "
+        "on generated configurations (each key alone, random combinations, conflicts, unknown "
+        "keys / sections) vs the model with independently re-parsed typed values; real runs of "
+        "the entry point (forward / misfit / gradient x 3 formats x noise / data / dry-run / "
+        "save-load / cache-clean) vs the API calls assembled from the model's parse result.",
+   design='§4 C18',
+   note=TB % 'c18' + "Modelled not verified: configparser / argparse (deliver the entries the model "
+        "is given), pathlib suffix rules (Cli.complete compared on generated names), typed value "
+        "conversion (re-implemented in the harness).",
+   technique='Lean 4 decision tables decided by `decide` + universally quantified rejection / precedence theorems; table re-extraction, parser and end-to-end correspondence'),
  'C02': dict(
    text="Proof (Lean 4, over an arbitrary field K, all grid sizes/widths/coefficients/fields): the "
         "model Emg.amat of core.amat_x equals on every interior edge the assembled operator "
